@@ -2,10 +2,10 @@
 """Re-run the targeted check (and listed extra checks) against every kept seeded change with the
 harness at /verif HEAD; updates seeded/<id>/meta.json (field `final`). Scratch copies only."""
 import json, os, re, subprocess, sys, glob
-EXTRA = {"C01":["C03"],"C02":[],"C03":["C13"],"C04":["C11"],"C05":[],"C06":[],"C07":["C13"],"C08":["C07"],"C09":["C10"],"C10":["C09"],
-         "C11":["C04"],"C12":["C17"],"C13":["C07"],"C14":[],"C15":[],"C16":["C03"],"C17":["C12"],"C18":[],"C19":[],"C20":[]}
+EXTRA = {"C01":["C03"],"C02":[],"C03":["C13"],"C04":["C11"],"C05":[],"C06":[],"C07":["C13"],"C08":["C19"],"C09":["C10"],"C10":["C09"],
+         "C11":["C04"],"C12":["C17"],"C13":["C07"],"C14":[],"C15":[],"C16":["C03"],"C17":["C19"],"C18":[],"C19":[],"C20":[]}
 only = sys.argv[1:]
-env = dict(os.environ, RM="/var/tmp/repo-s2", VM="/var/tmp/verif-s")
+env = dict(os.environ, RM=os.environ.get("RM","/var/tmp/repo-s2"), VM=os.environ.get("VM","/var/tmp/verif-s"), VERIF_E1_BUILD_TIMEOUT="600")
 head = subprocess.run(["git","-C","/verif","rev-parse","--short","HEAD"],capture_output=True,text=True).stdout.strip()
 for d in sorted(glob.glob('/verif/seeded/*/')):
     name = os.path.basename(d.rstrip('/'))
